@@ -197,6 +197,23 @@ func GenGroups(g G, w *World, maxDepth int, exoticNames bool) []GroupSpec {
 			} else {
 				r.Pattern = g.PickStr([]string{"refs/heads", "refs/heads/", "refs/tags", "refs/tags/v", "refs/", "refs/remotes/origin", "refs/foo", "refs/heads/feature"}, "rulefixed")
 			}
+			if exoticNames && g.Chance(1, 5, "padvalue") {
+				// the exact value counts: leading / trailing blanks are part of it
+				switch g.Pick(4, "padkind") {
+				case 0:
+					r.Pattern = r.Pattern + " "
+				case 1:
+					r.Pattern = " " + r.Pattern
+				case 2:
+					r.Pattern = r.Pattern + "\t"
+				default:
+					if r.Regexp {
+						r.Pattern = r.Pattern + "| " // an alternative that only matches " "
+					} else {
+						r.Pattern = r.Pattern + "  "
+					}
+				}
+			}
 			gs.Rules = append(gs.Rules, r)
 		}
 		specs = append(specs, gs)
